@@ -12,10 +12,11 @@ import (
 
 func init() { Registry["C01"] = C01 }
 
-// configuration used by all C01 programs: small, pairwise different patterns
-const c01Yaml = "patterns:\n  anti_evasion:\n    unix: '[q]*'\n    windows: '[w]*'\n  anti_evasion_suffix:\n    unix: '\\s'\n    windows: ';'\n  anti_evasion_no_space_suffix:\n    unix: 'n'\n    windows: 'm'\n"
+// configuration used by all C01 programs: small, pairwise different patterns; two of them contain a literal blank
+// (the blank of a pattern is part of the configured text, only a blank of a word means "white space")
+const c01Yaml = "patterns:\n  anti_evasion:\n    unix: '[ q]*'\n    windows: '[w]*'\n  anti_evasion_suffix:\n    unix: '\\s'\n    windows: '[ ;]'\n  anti_evasion_no_space_suffix:\n    unix: 'n'\n    windows: 'm'\n"
 
-var c01Cfg = ref.CmdCfg{UnixEvasion: "[q]*", UnixSuffix: `\s`, UnixNoSpace: "n", WindowsEvasion: "[w]*", WindowsSuffix: ";", WindowsNoSpace: "m"}
+var c01Cfg = ref.CmdCfg{UnixEvasion: "[ q]*", UnixSuffix: `\s`, UnixNoSpace: "n", WindowsEvasion: "[w]*", WindowsSuffix: "[ ;]", WindowsNoSpace: "m"}
 
 func c01Tree() core.Tree {
 	return core.Tree{"regex-assembly/toolchain.yaml": c01Yaml, "regex-assembly/include/": "", "regex-assembly/exclude/": "",
